@@ -165,6 +165,17 @@ func (w *World) c19RunHistory(h c19History, detail *[]string) string {
 }
 
 // c19Digests runs all histories on nWorlds fresh instances in this process; returns one digest list per instance.
+// extraReplays: additional in-process replays of single-packet histories (they are cheap and carry the long
+// tail of error texts). Go starts the iteration of a small map at a random slot, so an order dependence over
+// two entries shows its minority order with p = 1/8 per replay: 64 replays miss it with probability 2e-4,
+// 200 with 2.5e-12.
+func extraReplays(full bool) int {
+	if full {
+		return 200
+	}
+	return 64
+}
+
 func c19Digests(full bool, nWorlds int) ([][]string, []c19History, []*World, error) {
 	worlds, err := buildWorlds(nWorlds)
 	if err != nil {
@@ -188,6 +199,45 @@ func c19Digests(full bool, nWorlds int) ([][]string, []c19History, []*World, err
 	}
 	wg.Wait()
 	return out, hs, worlds, nil
+}
+
+// c19Amplify: light in-process replays of every single-packet history on all cores; returns the indexes of
+// histories whose acknowledgement bytes (the part IBC commits to state) were not identical on every replay.
+func c19Amplify(hs []c19History, full bool) (map[int]bool, int64, error) {
+	ws, err := buildWorlds(numWorkers())
+	if err != nil {
+		return nil, 0, err
+	}
+	n := extraReplays(full)
+	flaky := map[int]bool{}
+	var mu sync.Mutex
+	var runs int64
+	var idx []int
+	for i := range hs {
+		if len(hs[i].Ops) == 1 && hs[i].Ops[0].Pkt != nil {
+			idx = append(idx, i)
+		}
+	}
+	parallelFor(ws, len(idx), func(w *World, j int) {
+		i := idx[j]
+		first := ""
+		for k := 0; k < n; k++ {
+			r := w.Recv(Branch(w.Ctx), *hs[i].Ops[0].Pkt)
+			o := string(r.Ack) + "|" + panicSite(r.Panic)
+			if k == 0 {
+				first = o
+			} else if o != first {
+				mu.Lock()
+				flaky[i] = true
+				mu.Unlock()
+				break
+			}
+		}
+		mu.Lock()
+		runs += int64(n)
+		mu.Unlock()
+	})
+	return flaky, runs, nil
 }
 
 func init() { register("C19", checkC19) }
@@ -264,6 +314,13 @@ func checkC19(tier string) *Report {
 		rep.HarnessError("fixture: %v", err)
 		return rep
 	}
+	flaky, lightRuns, err := c19Amplify(hs, full)
+	if err != nil {
+		rep.HarnessError("fixture: %v", err)
+		return rep
+	}
+	rep.Extra["light_ack_replays"] = lightRuns
+	rep.Extra["light_ack_replays_per_single_packet_history"] = extraReplays(full)
 	cwg.Wait()
 	rep.Extra["histories"] = len(hs)
 	rep.Extra["replays_in_process"] = inProc
@@ -288,7 +345,7 @@ func checkC19(tier string) *Report {
 	var transitions int64
 	for i, h := range hs {
 		transitions += int64(len(h.Ops))
-		same := true
+		same := !flaky[i]
 		for r := 1; r < len(all); r++ {
 			if all[r][i] != all[0][i] {
 				same = false
